@@ -44,6 +44,11 @@ fn flags_of(o: &Obj) -> String {
     if o.bindings.iter().any(|(l, r)| l == "separator" && r == "true") && o.bindings.len() == 1 {
         f.push('p');
     }
+    // explicit placement `QLayout.row: N; QLayout.column: 0` travels as trailing digits (the Lean side only looks for the
+    // letters: the skeleton does not depend on the placement)
+    if let Some((_, r)) = o.bindings.iter().find(|(l, _)| l == "QLayout.row") {
+        f.push_str(r);
+    }
     f
 }
 
@@ -91,6 +96,11 @@ fn decode(s: &Sexp) -> Obj {
     let flags = l[3].as_atom().unwrap();
     if flags.contains('p') {
         o.bindings.push(("separator".into(), "true".into()));
+    }
+    let row: String = flags.chars().filter(|c| c.is_ascii_digit()).collect();
+    if !row.is_empty() {
+        o.bindings.push(("QLayout.row".into(), row));
+        o.bindings.push(("QLayout.column".into(), "0".into()));
     }
     o.children = l[5..].iter().map(decode).collect();
     o
@@ -175,6 +185,31 @@ impl Stream for C11 {
             if illegal {
                 labels.push("illegal".into());
                 mutate_illegal(&mut rng, &mut root);
+            }
+            // explicit placement in form / grid layouts, NOT ascending in declaration order: the items keep the declaration
+            // order all the same (the cells themselves are C12's subject; the skeleton drops the item attributes)
+            if rng.chance(1, 3) {
+                fn place(rng: &mut Rng, o: &mut Obj, used: &mut bool) {
+                    if (o.class == "QFormLayout" || o.class == "QGridLayout") && o.children.len() >= 2 && rng.chance(2, 3) {
+                        let mut rows: Vec<usize> = (0..o.children.len()).collect();
+                        rng.shuffle(&mut rows);
+                        if o.children.iter().all(|c| matches!(family_of(&c.class), Family::Widget | Family::Layout | Family::Spacer) && !c.class.starts_with("Nope") && c.class != "QButtonGroup") {
+                            for (c, r) in o.children.iter_mut().zip(rows) {
+                                c.bindings.push(("QLayout.row".into(), r.to_string()));
+                                c.bindings.push(("QLayout.column".into(), "0".into()));
+                            }
+                            *used = true;
+                        }
+                    }
+                    for c in &mut o.children {
+                        place(rng, c, used);
+                    }
+                }
+                let mut used = false;
+                place(&mut rng, &mut root, &mut used);
+                if used {
+                    labels.push("explicit-placement".into());
+                }
             }
             // explicit actions lists
             if rng.chance(1, 3) {
